@@ -137,3 +137,17 @@ func svFeePool(app *App) *big.Int {
 func svFee(currency string) action.Fee {
 	return action.Fee{Price: action.Amount{Currency: currency, Value: *balance.NewAmountFromBigInt(sv.BigInt("fee.price"))}, Gas: sv.Int64("fee.gas")}
 }
+
+// svAmountAt reads a stored balance.Amount record by its raw key from the
+// deliver state (absent = 0), the way the stores' own getters do.
+func svAmountAt(app *App, key string) *big.Int {
+	dat, _ := app.Context.deliver.Get([]byte(key))
+	amt := balance.NewAmount(0)
+	if len(dat) == 0 {
+		return amt.BigInt()
+	}
+	if err := serialize.GetSerializer(serialize.PERSISTENT).Deserialize(dat, amt); err != nil {
+		sv.Unreachable("svAmountAt: undecodable record " + key)
+	}
+	return amt.BigInt()
+}
